@@ -402,6 +402,55 @@ def o_c12(tr):
                     bad.append(("e2e:c12:unsolicited-close", f"endpoint {ep} sent a further copy of its close packet at {r.t}us although no datagram reached it since the previous one at {prev_t}us"))
                     break
             prev_t = r.t
+    bad += close_copies(tr, closed_at, client_addr)
+    return bad
+
+
+_ENDPOINT_ACTIONS = ("deliver", "drop", "drop-small", "blackhole", "mtu-drop", "corrupt-flip", "corrupt-truncate", "corrupt-splice")
+_DUR_RE = re.compile(r"latest_rtt: ([0-9.]+)(ns|µs|us|ms|s)\b")
+_DUR_US = {"ns": 0.001, "µs": 1.0, "us": 1.0, "ms": 1000.0, "s": 1000000.0}
+
+
+def close_copies(tr, closed_at, client_addr):
+    """copies of the close packet are re-sent bytes: they never pass the packet interceptor and only show up as
+    datagrams on the simulated wire. In the closing state an endpoint sends nothing else, so every datagram it puts on
+    the wire after the one carrying its first CONNECTION_CLOSE must (1) be byte-identical to that datagram (same length,
+    same leading bytes) and (2) answer an incoming datagram: close_sender.rs arms a timer of one `latest_rtt` when a
+    datagram is attributed to the closing connection and sends the copy when it fires, so a copy at time t needs a
+    datagram that reached the endpoint at t - latest_rtt (to the granularity of the timer wheel), and two copies need
+    two different such datagrams."""
+    bad = []
+    wires = tr.of("wire")
+    for ep, idx0 in closed_at.items():
+        t0 = next(r.t for r in tr.recs if r.idx == idx0)
+        # datagrams the endpoint itself put on the wire (not the adversary's injections, replays or duplicates)
+        mine = [w for w in wires if ((w.src == client_addr) == (ep == "c")) and w.t >= t0 and w.action in _ENDPOINT_ACTIONS]
+        first = [w for w in mine if w.t == t0 and not w.action.startswith("corrupt")]
+        later = [w for w in mine if w.t > t0]
+        if not first or not later:
+            continue
+        ref = (first[-1].orig, first[-1].head)
+        arrivals = sorted(w.at for w in wires if w.at is not None and w.at >= t0 and ((w.dst == client_addr) == (ep == "c")))
+        rtts = []
+        for r in tr.recs:
+            if r.kind == "ev" and r.ep == ep and r.name == "recovery:metrics_updated":
+                m = _DUR_RE.search(r.text)
+                if m:
+                    rtts.append((r.t, float(m.group(1)) * _DUR_US[m.group(2)]))
+        used = set()
+        for w in later:
+            if not w.action.startswith("corrupt") and (w.orig, w.head) != ref:      # (altered in flight: bytes unknown)
+                bad.append(("e2e:c12:not-a-close-copy", f"endpoint {ep} put a datagram of {w.orig} bytes on the wire at {w.t}us, after its CONNECTION_CLOSE at {t0}us, that is not a copy of the close datagram ({ref[0]} bytes)"))
+                break
+            cand = sorted({v for (t, v) in rtts if t <= w.t})
+            if not cand:
+                continue
+            arm = next((a for a in arrivals if a not in used and a < w.t and any(-1.0 <= w.t - (a + v) <= 1000.0 for v in cand)), None)
+            if arm is None:
+                near = [a for a in arrivals if a < w.t][-3:]
+                bad.append(("e2e:c12:close-copy-not-armed-by-datagram", f"endpoint {ep} sent a copy of its close packet at {w.t}us, but no datagram reached it one latest_rtt earlier (rtt candidates {cand[-4:]}us; last arrivals before it {near}): the copy was not triggered by an incoming packet"))
+                break
+            used.add(arm)
     return bad
 
 
